@@ -105,7 +105,9 @@ CONTEXTS = [
     ('augassign-target', 'def g3(self):\n    {} += 1'),
 ]
 EXPRS = ['foo', 'fo', 'foobar', 'os', 'os.path', 'os.path.join', 'inst.attr', 'inst.meth', 'osp.join', 'sys.argv', 'pm.Cls', 'pm.Cls.x',
-         'self.ba', 'Klass.attr', 'f', 'separator', 'foo.real', 'pkg.mod.fn', 'd.keys', 'unknown_name', 'unknown.attr', 'föö']
+         'self.ba', 'Klass.attr', 'f', 'separator', 'foo.real', 'pkg.mod.fn', 'd.keys', 'unknown_name', 'unknown.attr', 'föö',
+         # identifiers that are legal but not NFKC-normal (the parser normalises them, the buffer does not): ligature, micro sign, fullwidth
+         '\ufb01le', '\u00b5', '\uff46\uff4f\uff4f.\uff52\uff45\uff41\uff4c']
 IMPORT_LINES = ['import os', 'import os.path', 'import os.path as osp2', 'from os import path', 'from os import path, sep',
                 'from os.path import join', 'from os import (path,\n    sep)', 'from . import mod', 'from .mod import fn',
                 'from pkg.sub import leaf', 'import pkg.sub.leaf', 'from os import(path)', 'from os import\tpath', 'from\tos import path',
